@@ -67,7 +67,7 @@ def run(res, tier, seed, shard, nshards):
     n_rand = 3000 if tier == "quick" else 60000
     for i in range(n_rand):
         n = rng.randrange(0, 40)
-        pool = [rng.choice([rng.uniform(-5, 5), rng.random() * 1e-9, float(rng.randrange(-3, 4)), 1e300, -1e300, 5e-324, 0.0, -0.0]) for _ in range(max(1, n // 2 + 1))]
+        pool = [rng.choice([rng.uniform(-5, 5), rng.random() * 1e-9, float(rng.randrange(-3, 4)), 1e300, -1e300, 5e-324, 0.0, -0.0, float("inf"), float("-inf")]) for _ in range(max(1, n // 2 + 1))]
         lst = sorted(rng.choice(pool) for _ in range(n))
         for _ in range(3):
             x = rng.choice(pool + [rng.uniform(-6, 6), float("inf"), float("-inf")])
@@ -87,6 +87,14 @@ def run(res, tier, seed, shard, nshards):
             for x in (rng.randrange(-4, 5), rng.randrange(-4, 5)):
                 _check_one(res, raw, half, x, "random-halves-int-probe")
                 res.seen((tuple(half), x, "int"))
+    # lists that begin / end with infinities, probed with the infinities (exhaustive over a small domain)
+    INF = float("inf")
+    dom = [-INF, -1.0, 2.0, INF]
+    for n in range(0, 5):
+        for lst in itertools.combinations_with_replacement(dom, n):
+            for x in (-INF, INF, -1.0, 0.0, 2.0, 3.0):
+                _check_one(res, raw, list(lst), x, "infinities")
+                res.seen((lst, x, "inf"))
     res.counters["random_lists"] = n_rand
     # long lists (beyond any small-size fast path), long runs of duplicates, ints beyond 2**53 next to floats
     n_long = 40 if tier == "quick" else 600
